@@ -225,6 +225,10 @@ def check_forms(ctx):
 
 
 def run(ctx):
+    from .C15 import check_phase
+    ctx.rule("C19-PHASE", "the phases the diagnostics work on are RVData.phase = ((t - t_ref) / P) mod 1: in [0, 1) for every epoch, also before t_ref (shared clause with C15-TREF); "
+                          "a truncating fractional part (modf, x - int(x)) gives negative phases there and breaks the wrap-around and the histogram range.")
+    check_phase(ctx, "C19-PHASE")
     check_map(ctx)
     check_gap(ctx)
     check_forms(ctx)
